@@ -273,3 +273,8 @@ CHECKS = [
           rule='valid generated initial states x random composition, and resets of the shipped configurations, x <= 40 (300 thorough) actions: agent inside the grid and on a non-blocking cell after every step',
           required=['generated', 'shipped', 'shipped_via_gym']),
 ]
+
+
+from vgv import worldedit  # noqa: E402
+
+CHECKS.append(worldedit.make_check('C08'))
